@@ -199,7 +199,9 @@ def run(ctx):
         "invariants NativeWellFormed/LxmlWellFormed/Slots in every state; every completed behaviour is replayed into the "
         "real XmlEventWriter and LxmlEventWriter (decisive: expat accepts the text and every element, attribute and QName "
         "value is in the namespace asked for); real XmlSerializer executions over the model zoo are recorded and validated "
-        "by TLC against Trace_Writer. A case is non-trivial when it is a distinct (event sequence, prefix map, backend)."
+        "by TLC against Trace_Writer; (b) every (model, instance) of the RoundTrip universe is serialised by both writers under 7 "
+        "configurations and hostile prefix maps and the independent expat reading of the text is compared with Prescribed(model, "
+        "instance) of RoundTrip.tla. A case is non-trivial when it is a distinct (event sequence, prefix map, backend) or (model, instance)."
     )
     ctx.assumptions += [
         "xml.sax.saxutils.XMLGenerator and lxml.sax.ElementTreeContentHandler behave as their contracts in Writer.tla (checked on every replay through the rendered text)",
@@ -239,12 +241,19 @@ def run(ctx):
     for i in range(0, len(traces), 1500):
         trace_validate(ctx, traces[i:i + 1500], f"Trace_Writer zoo batch {i // 1500}")
     # 4. metadata level (b)
-    try:
-        from .. import roundtrip_bind
-    except ImportError:
-        roundtrip_bind = None
-    if roundtrip_bind is not None:
-        roundtrip_bind.run_prescribed(ctx)
+    from .. import rt_engine as rt
+
+    cases = rt.generate(ctx, label="Gen_RoundTrip prescribed documents, 1 field", max_fields=1, faults=("none",), cfgs="StrictOnly")
+    cases += rt.generate(ctx, label="Gen_RoundTrip prescribed documents, 2 fields (simulate)", max_fields=2, faults=("none",),
+                         cfgs="StrictOnly", simulate=ctx.pick(1200, 25000))
+    for k, case in enumerate(cases):
+        ctx.case(("prescribed", str(case["m"]), str(case["inst"])))
+        rt.check_roundtrip(ctx, case, ns_maps=rt.NS_MAPS if k % 3 == 0 else (None,), handlers=(), want=("C03",))
+    if cases:
+        c = cases[len(cases) // 2]
+        ctx.sample({"kind": "prescribed-document", "fields": [f"{f['name']}:{f['kind']}:{f['tp']}:{f['card']}" for f in c["m"]["fields"]],
+                    "instance": c["inst"], "prescribed": c["doc"]})
+    ctx.extra["prescribed_documents_compared"] = len(cases)
 
 
 def replay(ctx, doc):
